@@ -124,7 +124,7 @@ impl Report {
     pub fn regime_count(&self, regime: &str) -> u64 {
         self.regimes.iter().find(|e| e.0 == regime).map(|e| e.1).unwrap_or(0)
     }
-    fn assert_stat(&mut self, assertion: &str) -> &mut AssertStat {
+    pub fn assert_stat(&mut self, assertion: &str) -> &mut AssertStat {
         let hit = matches!(self.assertions.get(self.last_assert), Some(e) if e.0 == assertion);
         if !hit {
             self.last_assert = match self.assertions.iter().position(|e| e.0 == assertion) {
